@@ -163,7 +163,7 @@ func c13Run(c c13Case, res *WRes) {
 		return
 	}
 	res.distinct(fmt.Sprintf("%+v", c))
-	req := strings.Fields(c.RT)
+	req := strings.Fields(strings.ToLower(c.RT)) // response types are matched case-insensitively by the library; grants must follow
 	sort.Strings(req)
 	// (b) response_type is one of the registered combinations, as a set
 	match := false
@@ -298,7 +298,7 @@ var c13GrantSets = [][]string{{"authorization_code", "implicit", "refresh_token"
 var c13AllRT = []string{"code", "token", "id_token", "id_token token", "code id_token", "code token", "code id_token token"}
 
 func c13Requested() []string {
-	alpha := []string{"code", "token", "id_token", "bogus"}
+	alpha := []string{"code", "token", "id_token", "bogus", "Token"}
 	out := []string{""}
 	for _, a := range alpha {
 		out = append(out, a)
